@@ -164,6 +164,29 @@ def run_group(group, out):
                         % (impl, group['compression'], group['threshold'], ae, text),
                         {'impl': impl, 'compression': group['compression'], 'threshold': group['threshold'],
                          'case': [[''], 3, ae]}, weight=(0, 1)))
+        # a poll that is answered with no packets at all (released by the client's own CLOSE while it was waiting): the
+        # client receives the payload of zero packets
+        for j2 in (None, 6):
+            for ae in (None, 'gzip'):
+                sid2 = peer.sid_of(peer.open_polling(w))
+                if sid2 is None:
+                    break
+                hdr = {} if ae is None else {'Accept-Encoding': ae}
+                g = peer.poll(w, sid2, extra='' if j2 is None else '&j=%d' % j2, headers=hdr)
+                if g.done:
+                    continue
+                peer.post(w, sid2, '1')
+                w.run()
+                if not (g.done and g.status == 200):
+                    continue        # the asyncio server releases such a poll differently (C18 is not this property)
+                n += 1
+                for kind, text in judge(g, '', j2, ae, group['compression'], group['threshold']):
+                    out.append(report.Violation(
+                        {'impl': impl, 'kind': kind, 'trigger': 'empty_poll'},
+                        '[%s compression=%s threshold=%d j=%r AE=%r poll released with no packets by the CLOSE the client posted] %s'
+                        % (impl, group['compression'], group['threshold'], j2, ae, text),
+                        {'impl': impl, 'compression': group['compression'], 'threshold': group['threshold'],
+                         'case': [[], j2, ae]}, weight=(0, 0)))
     finally:
         w.teardown()
     return n
@@ -252,7 +275,7 @@ def replay(ctx, payload):
     r = report.unbytes(payload['replay'])
     out = []
     g = {'impl': r['impl'], 'compression': r['compression'], 'threshold': r['threshold'],
-         'cases': [tuple(r['case'])]}
+         'cases': [tuple(r['case'])] if r['case'][0] else []}      # no payloads: the epilogue probes of run_group alone
     run_group(g, out)
     for v in out:
         print('REPLAY VIOLATION:', v.text)
